@@ -138,7 +138,7 @@ func TestC18CloudEvents(t *testing.T) {
 				return "", signErr
 			}
 		}
-		f.SignEventTypes = []string{"some-other-type"}
+		f.SignEventTypes = []string{"some-other-type", et + "x", "X" + et}
 		if listed {
 			f.SignEventTypes = append(f.SignEventTypes, et)
 		}
